@@ -663,6 +663,32 @@ def scan() -> List[M]:
           "        finally:\n            if self._lock or self._lock.locked():\n                self._lock.release()\n            if not self.keep_alive:", "C09.R6"),
         M("C02", "scan-execute-result-never-read", P, "            result = response_future.result()\n", "            result = None\n", "C02.R8"),
         M("C09", "scan-map-response-swapped-arguments", ET, "data.update(self._map_response(response, self._sensors_battery))", "data.update(self._map_response(self._sensors_battery, response))", "C09.R1|error"),
+        # round-8 seeds (sibling variants): rules added, and the neighbouring rewrites that must stay silent
+        M("C08", "h-tcp-write-branch-on-command", MB, "    elif data[7] in (MODBUS_WRITE_CMD, MODBUS_WRITE_MULTI_CMD):\n        if len(data) < 12:", "    elif cmd in (MODBUS_WRITE_CMD, MODBUS_WRITE_MULTI_CMD):\n        if len(data) < 12:", "C08.R5"),
+        M("C08", "h-rtu-write-branch-on-command", MB, "    elif data[3] in (MODBUS_WRITE_CMD, MODBUS_WRITE_MULTI_CMD):\n        if len(data) < 10:", "    elif cmd in (MODBUS_WRITE_CMD, MODBUS_WRITE_MULTI_CMD):\n        if len(data) < 10:", "C08.R5"),
+        M("C08", "h-benign-tcp-write-branch-both", MB, "    elif data[7] in (MODBUS_WRITE_CMD, MODBUS_WRITE_MULTI_CMD):\n        if len(data) < 12:", "    elif data[7] == cmd and cmd in (MODBUS_WRITE_CMD, MODBUS_WRITE_MULTI_CMD):\n        if len(data) < 12:", "clean"),
+        M("C01", "h-benign-tcp-write-branch-both", MB, "    elif data[7] in (MODBUS_WRITE_CMD, MODBUS_WRITE_MULTI_CMD):\n        if len(data) < 12:", "    elif data[7] == cmd and cmd in (MODBUS_WRITE_CMD, MODBUS_WRITE_MULTI_CMD):\n        if len(data) < 12:", "clean"),
+        M("C02", "h-benign-tcp-write-branch-both", MB, "    elif data[7] in (MODBUS_WRITE_CMD, MODBUS_WRITE_MULTI_CMD):\n        if len(data) < 12:", "    elif data[7] == cmd and cmd in (MODBUS_WRITE_CMD, MODBUS_WRITE_MULTI_CMD):\n        if len(data) < 12:", "clean"),
+        M("C11", "h-benign-es-modbus-setting-read-via-seek", ES, "            response = await self._read_from_socket(self._read_command(setting.offset, count))\n            return setting.read_value(response)\n        response = await self._read_from_socket(Aa55ReadCommand(",
+          "            response = await self._read_from_socket(self._read_command(setting.offset, count))\n            return setting.read(response)\n        response = await self._read_from_socket(Aa55ReadCommand(", "clean"),
+        M("C16", "h-benign-es-modbus-setting-read-via-seek", ES, "            response = await self._read_from_socket(self._read_command(setting.offset, count))\n            return setting.read_value(response)\n        response = await self._read_from_socket(Aa55ReadCommand(",
+          "            response = await self._read_from_socket(self._read_command(setting.offset, count))\n            return setting.read(response)\n        response = await self._read_from_socket(Aa55ReadCommand(", "clean"),
+        M("C17", "h-benign-es-modbus-setting-read-via-seek", ES, "            response = await self._read_from_socket(self._read_command(setting.offset, count))\n            return setting.read_value(response)\n        response = await self._read_from_socket(Aa55ReadCommand(",
+          "            response = await self._read_from_socket(self._read_command(setting.offset, count))\n            return setting.read(response)\n        response = await self._read_from_socket(Aa55ReadCommand(", "clean"),
+        M("C19", "h-benign-es-modbus-setting-read-via-seek", ES, "            response = await self._read_from_socket(self._read_command(setting.offset, count))\n            return setting.read_value(response)\n        response = await self._read_from_socket(Aa55ReadCommand(",
+          "            response = await self._read_from_socket(self._read_command(setting.offset, count))\n            return setting.read(response)\n        response = await self._read_from_socket(Aa55ReadCommand(", "clean"),
+        M("C16", "h-es-aa55-setting-read-via-seek", ES, "        response = await self._read_from_socket(Aa55ReadCommand(setting.offset, count))\n        return setting.read_value(response)",
+          "        response = await self._read_from_socket(Aa55ReadCommand(setting.offset, count))\n        return setting.read(response)", "C16.R1"),
+        M("C17", "h-es-aa55-setting-read-via-seek", ES, "        response = await self._read_from_socket(Aa55ReadCommand(setting.offset, count))\n        return setting.read_value(response)",
+          "        response = await self._read_from_socket(Aa55ReadCommand(setting.offset, count))\n        return setting.read(response)", "C17.R5"),
+        M("C19", "h-es-aa55-setting-read-via-seek", ES, "        response = await self._read_from_socket(Aa55ReadCommand(setting.offset, count))\n        return setting.read_value(response)",
+          "        response = await self._read_from_socket(Aa55ReadCommand(setting.offset, count))\n        return setting.read(response)", "C19.R9"),
+        M("C19", "scan4-detect-type-745-byte", S, "        if value in (6, -7):", "        if value in (6, -8):", "C19.R4"),
+        M("C19", "scan4-detect-type-eco-byte", S, "        if value in (0, -1):", "        if value in (0, -2):", "C19.R4"),
+        M("C19", "scan4-es-limit-zero-rejected", ES, "        if limit < 0 or limit > 100:", "        if limit <= 0 or limit > 100:", "C19.R2", count=2),
+        M("C19", "scan4-benign-es-limit-upper-101", ES, "        if limit < 0 or limit > 100:", "        if limit < 0 or limit > 101:", "clean", count=2),
+        M("C18", "scan4-dt-forget-pops-none", DT, "                self._settings.pop(setting.id_, None)", "                self._settings.pop(None, setting.id_)", "C18.R4"),
+        M("C09", "scan4-discover-probe-never-sent", INIT, "            response = await DISCOVERY_COMMAND.execute(UdpInverterProtocol(host, port, 0, timeout, retries))\n", "", "C09.R8"),
         M("C16", "scan-dt-id-map-never-built", DT, "        self._sensors_map = {s.id_: s for s in self.sensors()}\n        return self._sensors_map.get(sensor_id)", "        return self._sensors_map.get(sensor_id)", "C16.R5"),
     ]
 
